@@ -820,6 +820,11 @@ func init() {
 		"github.com/google/uuid.NewRandom": func(in *Interp, fn *ssa.Function, a []Value) Value {
 			hex := setStr("0123456789abcdef")
 			var s NF
+			if in.p.uuidDistinct {
+				// the harness assumes draws never collide (rt.DistinctUUIDs): the k-th draw is a fixed value
+				in.p.uuidCalls++
+				return TupleV{&HostObj{kind: "uuid", v: nfLit(fmt.Sprintf("00000000-0000-4000-8000-%012x", in.p.uuidCalls))}, IfaceV{}}
+			}
 			for i, n := range []int64{8, 4, 4, 4, 12} {
 				if i > 0 {
 					s = nfCat(s, nfLit("-"))
